@@ -13,17 +13,39 @@ table driven fold of proc/redis/util.go (StepTab), HashTag as the cluster specif
     hashtag / slot on every emitted brace key, and seeded random keys up to 64 KiB.
  3. code -> spec: (key, tag, crc, slot) computed by the real code for seeded random short keys with arbitrary
     brace placement are validated by TLC (SlotTrace.tla) with HashTag / CRC / Slot of the module.
+ 4. the routing decision (spec/redis/SlotRoute.tla, SlotRouteGen.tla, SlotRouteTrace.tla): where the slot is USED.
+    chooseHost reads a table that doSlotsRefresh rewrites master by master while sessions keep routing; a slot
+    without an owner falls back to a random seed host, i.e. is not routed by its slot.  TLC checks that on an
+    unchanged, correctly sharded cluster every decision after the first fill - in every phase of every later
+    refresh, successful or failed - is the owner of Slot(key) for every key including the empty one
+    (MC_SlotRoute.cfg), and that the two broken variants violate it (anti-vacuity: MC_SlotRoute_wipe.cfg = the
+    table is cleared before it is refilled, MC_SlotRoute_emptykey.cfg = an empty routing key goes to any host).
+    spec -> code: TLC emits the layouts, the keys and, for every reachable state of the refresh, the node of
+    every key (Gen_SlotRoute.cfg); the harness builds a real upstream over fake seed nodes, parks the refresh
+    goroutine at the hook upstream.doSlotsRefresh.assigned after each master (and withholds the CLUSTER NODES
+    reply), and routes every key - and every brace key of step 2 - through the real chooseHost in every state;
+    a last stratum lets refreshes run free under concurrent routing.  code -> spec: the recorded events
+    (send / assign / done / fail / route) are validated by TLC (SlotRouteTrace.tla).
+    All slot values of steps 2 and 3 are read off the same real routing function (a real upstream with seed
+    hosts, redis.VerifNewRouter), so a key that is not routed by its slot shows as slot -1.
+
+Hooks / exports in /repo used by this check: proc/redis/export_verif.go (VerifCRC16, VerifHashTag, VerifCRC16Tab),
+proc/redis/route_verif.go (VerifNewRouter, VerifInstanceAddr), hook line upstream.doSlotsRefresh.assigned.
 """
+import copy
 import json
 import os
+from concurrent.futures import ThreadPoolExecutor
 
 import kit
 
 LEVEL = "model_checking"
 
 
-def _sig(part, what):
+def _sig(part, what, key=None):
     what = what.split(" (")[0]
+    if "slot" in what and key is not None and len(key) == 0:
+        return "slot/empty-key"
     if part == "table":
         return "crc-table/entry"
     if "hashtag" in what:
@@ -44,11 +66,207 @@ def _collect(ctx, path, expect_parts):
         if r.get("kind") != "mismatch":
             continue
         key = bytes(r.get("key") or [])
-        ctx.violation(_sig(r["part"], r["what"]),
+        ctx.violation(_sig(r["part"], r["what"], key),
                       "%s of key %r: real code %s, specification %s" % (r["what"], key, r["got"], r["want"]),
                       {"part": r["part"], "key_bytes": r.get("key"), "what": r["what"],
                        "real": r["got"], "spec": r["want"]})
     return sums
+
+
+def _key_class(kb):
+    if len(kb) == 0:
+        return "empty-key"
+    if 123 in kb:
+        return "brace-key"
+    return "plain-key"
+
+
+def _route_sig(rec, stable_bad):
+    """Signature of a routing decision that is not the owner of the key's slot (table filled, cluster unchanged)."""
+    if (rec["lay"], tuple(rec["key"])) in stable_bad:
+        return "route/" + _key_class(rec["key"])          # wrong whatever the refresh does: an input class
+    if rec["phase"] in ("update", "free-running"):
+        return "route/refresh-window"                     # between the first and the last write of a refresh
+    if rec["phase"] == "inflight":
+        return "route/refresh-in-flight"
+    if rec["after"].startswith("fail"):
+        return "route/after-failed-refresh"
+    return "route/" + _key_class(rec["key"])
+
+
+def _route_tlc(ctx, pool):
+    """The TLC runs of step 4 (started early, they run beside the other TLC runs of the check)."""
+    return {
+        "mc": pool.submit(ctx.mc, "redis", "SlotRoute", "MC_SlotRoute.cfg", workers=4, timeout=300),
+        "wipe": pool.submit(ctx.mc, "redis", "SlotRoute", "MC_SlotRoute_wipe.cfg", workers=2, timeout=300, count=False,
+                            expect_violated=["RoutedByOwner"]),
+        "emptykey": pool.submit(ctx.mc, "redis", "SlotRoute", "MC_SlotRoute_emptykey.cfg", workers=2, timeout=300,
+                                count=False, expect_violated=["RoutedByOwner"]),
+        "gen": pool.submit(ctx.mc, "redis", "SlotRouteGen", "Gen_SlotRoute.cfg", workers=1, timeout=300, count=False),
+    }
+
+
+def _route(ctx, brace_file, futs, pool):
+    """Step 4: the routing decision under refreshes of an unchanged layout. Returns the future of the trace validation."""
+    futs["mc"].result()
+    futs["wipe"].result()
+    futs["emptykey"].result()
+    ctx.cov["route_anti_vacuity"] = {"WipeFirst=TRUE": "violates RoutedByOwner", "EmptyKeyAny=TRUE": "violates RoutedByOwner"}
+
+    r = futs["gen"].result()
+    layouts = [p for (t, p) in r.prints if t == "LAYOUT"]
+    rkeys = [p for (t, p) in r.prints if t == "RKEYS"]
+    states = {}
+    for (t, p) in r.prints:
+        if t != "STATE":
+            continue
+        p["assigned"] = sorted(p["assigned"])
+        k = (p["lay"], p["phase"], tuple(p["assigned"]), p["filled"])
+        if k in states and states[k] != p:
+            raise kit.Inconclusive("emission: state %s has two different expectations" % (k,))
+        states[k] = p
+    if len(layouts) != 2 or len(rkeys) != 1 or not states:
+        raise kit.Inconclusive("route emission incomplete: %d layouts, %d key lists, %d states"
+                               % (len(layouts), len(rkeys), len(states)))
+    keys = rkeys[0]
+    if not any(len(k["k"]) == 0 for k in keys):
+        raise kit.Inconclusive("the empty key is not among the routed keys")
+    for lay in layouts:
+        if not any(s["window"] for s in states.values() if s["lay"] == lay["name"]):
+            raise kit.Inconclusive("model: the mid-update window of layout %s is not reachable" % lay["name"])
+    rfile = os.path.join(ctx.work, "route.json")
+    with open(rfile, "w") as f:
+        json.dump({"layouts": layouts, "keys": keys, "states": list(states.values())}, f)
+
+    cycles = 8 if ctx.thorough else 3
+    free = 2000 if ctx.thorough else 200
+    res = os.path.join(ctx.work, "route.ndjson")
+    trace = os.path.join(ctx.work, "route-recorded.json")
+    for pth in (res, trace):
+        if os.path.exists(pth):
+            os.remove(pth)
+    rc, so, se = ctx.harness(["c12-route", "-in", rfile, "-brace", brace_file, "-cycles", str(cycles), "-free", str(free),
+                              "-out", res, "-trace", trace], timeout=300, allow_fail=True)
+    recs = kit.read_ndjson(res) if os.path.exists(res) else []
+    mis = [x for x in recs if x.get("kind") == "routemis"]
+    stalls = [x for x in recs if x.get("kind") == "stall"]
+    sums = {(x["part"], x["lay"]): x for x in recs if x.get("kind") == "summary"}
+
+    # keys that are misrouted while the table is complete and no refresh is running: an input class, not a window
+    stable_bad = set((x["lay"], tuple(x["key"])) for x in mis
+                     if x["filled"] and x["phase"] == "idle" and x["after"] == "done")
+    divergence = []
+    for x in mis:
+        x["assigned"] = x.get("assigned") or []
+        if not x["filled"]:
+            divergence.append(x)       # before the first fill the property does not say where a key goes
+            continue
+        key = bytes(x["key"])
+        ctx.violation(_route_sig(x, stable_bad),
+                      "layout %s, %s%s (masters written so far: %s): %s of key %r (slot %d) was routed to %s, the owner of "
+                      "the slot is %s%s" % (
+                          x["lay"], x["phase"], " after " + x["after"] if x["phase"] in ("idle", "boot") else "",
+                          ",".join(x["assigned"]) or "-", x["cmd"], key, x["slot"],
+                          "a random seed host (%s)" % x["got_addr"] if x["got"] == "seed" else "%s (%s)" % (x["got"], x["got_addr"]),
+                          x["want"], " [%d decisions]" % x["n"] if x.get("n") else ""),
+                      {"part": x["part"], "layout": x["lay"], "phase": x["phase"], "after": x["after"],
+                       "assigned": x["assigned"], "key_bytes": x["key"], "slot": x["slot"], "cmd": x["cmd"],
+                       "real": x["got"], "real_addr": x["got_addr"], "spec": x["want"], "cycle": x["cycle"]})
+    if not ctx.violations:
+        if rc != 0:
+            raise kit.Inconclusive("harness c12-route exited %d: %s" % (rc, (se or so)[-2000:]))
+        if stalls:
+            raise kit.Inconclusive("c12-route could not drive the refresh: %s" % stalls[0].get("error"))
+        if divergence:
+            x = divergence[0]
+            raise kit.Inconclusive("before the first fill the real code differs from the model: %s key %r -> %s, model %s"
+                                   % (x["phase"], bytes(x["key"]), x["got"], x["want"]))
+    # mandatory strata: every phase of a refresh of a complete table was observed on the real code
+    n_dec = 0
+    strata_seen = {}
+    for lay in layouts:
+        name, n = lay["name"], len(lay["nodes"])
+        sm = sums.get(("route", name))
+        if sm is None:
+            if ctx.violations:
+                continue
+            raise kit.Inconclusive("c12-route wrote no summary for layout %s" % name)
+        st = sm.get("strata") or {}
+        need = ["boot-after-start/first-fill", "boot-after-fail-error/first-fill", "inflight/first-fill", "inflight/filled",
+                "idle-after-done/filled", "idle-after-fail-error/filled", "idle-after-fail-malformed/filled"]
+        need += ["update-%d-of-%d/filled" % (k, n) for k in range(1, n + 1)]
+        missing = [x for x in need if not st.get(x)]
+        if missing and not ctx.violations:
+            raise kit.Inconclusive("layout %s: mandatory strata not observed on the real code: %s" % (name, missing))
+        strata_seen[name] = st
+        n_dec += sm["n"]
+        for stratum in st:
+            for i, k in enumerate(keys):
+                ctx.case(key="route/%s/%s/%d" % (name, stratum, i),
+                         nontrivial=stratum.startswith("update") or stratum.startswith("inflight") or len(k["k"]) == 0)
+        ctx.case(n=max(0, sm["n"] - len(st) * len(keys)), nontrivial=False)
+        for part in ("route-brace", "route-free"):
+            sp = sums.get((part, name))
+            if sp:
+                ctx.case(n=sp["n"], nontrivial=False)
+                ctx.case(key="%s/%s" % (part, name))
+                n_dec += sp["n"]
+            elif not ctx.violations:
+                raise kit.Inconclusive("c12-route wrote no %s summary for layout %s" % (part, name))
+    ctx.cov["route"] = {"layouts": [l["name"] for l in layouts], "keys": len(keys), "model_states": len(states),
+                        "successful_refreshes_per_layout": cycles, "free_running_refreshes_per_layout": free,
+                        "decisions_on_real_code": n_dec, "strata": strata_seen,
+                        "free_running": {l["name"]: (sums.get(("route-free", l["name"])) or {}).get("note", "") for l in layouts}}
+    ctx.sample({"route": {"layout": layouts[0]["name"], "phase": "update", "key": "", "slot": 0,
+                          "owner": next(s for s in states.values() if s["lay"] == layouts[0]["name"] and s["filled"])["own"][0]}})
+
+    # code -> spec: the recorded events validated by TLC (beside the validation of step 3: own work directory)
+    if not os.path.exists(trace):
+        if ctx.violations:
+            return None
+        raise kit.Inconclusive("c12-route wrote no trace")
+    with open(trace) as f:
+        events = json.load(f)
+    ctx2 = copy.copy(ctx)          # shares coverage, violations, known findings; separate trace.json / scratch
+    ctx2.work = os.path.join(ctx.work, "route-trace")
+    os.makedirs(ctx2.work, exist_ok=True)
+    return pool.submit(_route_validate, ctx2, events, stable_bad)
+
+
+def _route_validate(ctx, events, stable_bad):
+    n_refresh = sum(1 for e in events if e["op"] == "send")
+    rt = ctx.validate_traces("redis", "SlotRouteTrace", "Trace_SlotRoute.cfg", events, n_refresh, timeout=300)
+    ctx.cov["states"] += rt.distinct
+    ctx.cov["transitions"] += rt.generated
+    if not rt.ok:
+        if rt.reject is None:
+            if ctx.violations:
+                return
+            raise kit.Inconclusive("SlotRouteTrace failed without a rejection: %s" % (rt.error or rt.violated))
+        idx = rt.reject[0] - 1
+        e = events[idx] if 0 <= idx < len(events) else None
+        # where the refresh was when the event was recorded
+        lay, phase, after, filled, assigned = None, "boot", "start", False, []
+        for x in events[:max(idx, 0)]:
+            if x["op"] == "init":
+                lay, phase, after, filled, assigned = x["lay"], "boot", "start", False, []
+            elif x["op"] == "send":
+                phase, assigned = "inflight", []
+            elif x["op"] == "assign":
+                phase = "update"
+                assigned.append(x["n"])
+            elif x["op"] == "done":
+                phase, after, filled = "idle", "done", True
+            elif x["op"] == "fail":
+                phase, after = ("idle" if filled else "boot"), "fail"
+        if e is not None and e["op"] == "route" and filled:
+            rec = {"lay": lay, "key": e["kb"], "phase": phase, "after": after}
+            ctx.violation(_route_sig(rec, stable_bad),
+                          "TLC rejects the recorded routing decision: layout %s, %s (masters written so far: %s), key %r "
+                          "was routed to %s" % (lay, phase, ",".join(assigned) or "-", bytes(e["kb"]), e["node"]),
+                          {"index": idx, "event": e, "layout": lay, "phase": phase, "assigned": assigned})
+        elif not ctx.violations:
+            raise kit.Inconclusive("SlotRouteTrace rejects event %d (%s): the model does not describe the real refresh" % (idx, e))
 
 
 def run(ctx):
@@ -59,15 +277,34 @@ def run(ctx):
         "sampled directly up to 64 KiB",
         "brace placement is exhaustive up to length 7 (quick) / 8 (thorough) over a 4 letter alphabet; the scan only "
         "distinguishes '{', '}' and other bytes",
-        "end-to-end routing by the computed slot is checked in C03",
+        "end-to-end routing by the computed slot is checked in C03; here the routing function (chooseHost) and the table "
+        "refresh (doSlotsRefresh) of a real upstream are driven directly",
+        "the refresh is paused after the slots of each master have been written (hook upstream.doSlotsRefresh.assigned) and "
+        "while the CLUSTER NODES reply is withheld; finer interleavings inside the update of one master are only covered by "
+        "the free running stratum",
+        "before the first successful refresh the property does not say where a key goes (random seed host): not judged",
     ]
+    # the exhaustive / emitting TLC runs do not depend on one another: started together (the machine is shared and
+    # a JVM start dominates each of them), collected in the order of the steps
+    pool = ThreadPoolExecutor(max_workers=10)
+    f_slot = pool.submit(ctx.mc, "redis", "Slot", "MC_Slot.cfg", workers=4, timeout=300)
+    f_tab = pool.submit(ctx.mc, "redis", "SlotGen", "Gen_SlotTab.cfg", workers=2, timeout=300, count=False)
+    cfg = "Gen_SlotKeys_thorough.cfg" if ctx.thorough else "Gen_SlotKeys_quick.cfg"
+    f_keys = pool.submit(ctx.mc, "redis", "SlotGen", cfg, workers=4, timeout=600)
+    f_route = _route_tlc(ctx, pool)
+    f_full = pool.submit(ctx.mc, "redis", "Slot", "MC_SlotFull.cfg", workers=8, timeout=900) if ctx.thorough else None
+    try:
+        _run(ctx, pool, f_slot, f_tab, f_keys, f_route, f_full)
+    finally:
+        pool.shutdown(wait=True)
+
+
+def _run(ctx, pool, f_slot, f_tab, f_keys, f_route, f_full):
     # 1. exhaustive CRC step equivalence
-    ctx.mc("redis", "Slot", "MC_Slot.cfg", workers=4, timeout=300)
-    if ctx.thorough:
-        ctx.mc("redis", "Slot", "MC_SlotFull.cfg", workers=8, timeout=900)
+    f_slot.result()
 
     # 2a. tables out of TLC
-    r = ctx.mc("redis", "SlotGen", "Gen_SlotTab.cfg", workers=2, timeout=300, count=False)
+    r = f_tab.result()
     tabs = [p for (t, p) in r.prints if t == "TAB"]
     chunks = {p["c"]: p["r"] for (t, p) in r.prints if t == "R8"}
     if len(tabs) != 1 or len(tabs[0]) != 256 or sorted(chunks) != list(range(256)) \
@@ -100,8 +337,7 @@ def run(ctx):
                            "full_product_in_tlc": bool(ctx.thorough)}
 
     # 2b. brace keys
-    cfg = "Gen_SlotKeys_thorough.cfg" if ctx.thorough else "Gen_SlotKeys_quick.cfg"
-    r = ctx.mc("redis", "SlotGen", cfg, workers=4, timeout=600)
+    r = f_keys.result()
     keys = [p for (t, p) in r.prints if t == "KEY"]
     maxlen = 8 if ctx.thorough else 7
     want = sum(4 ** i for i in range(maxlen + 1))
@@ -122,6 +358,9 @@ def run(ctx):
         if len(k["t"]) != len(k["k"]) and len(k["k"]) >= 5:
             ctx.sample({"key": bytes(k["k"]).decode("latin1"), "tag": bytes(k["t"]).decode("latin1"), "slot": k["s"]})
             break
+
+    # 4. the routing decision while the table is refreshed (unchanged layout)
+    f_rtrace = _route(ctx, kfile, f_route, pool)
 
     # 2c / 3. random keys: long ones against the step table, short ones recorded for TLC
     n_long = 6000 if ctx.thorough else 1500
@@ -145,7 +384,7 @@ def run(ctx):
             raise kit.Inconclusive("SlotTrace failed without a rejection: %s" % (rt.error or rt.violated))
         idx = rt.reject[0] - 1
         e = events[idx] if 0 <= idx < len(events) else None
-        ctx.violation("slot/recorded-key",
+        ctx.violation("slot/empty-key" if e and len(e["k"]) == 0 and e["s"] != 0 else "slot/recorded-key",
                       "TLC rejects what the real code computed for key %r: tag %r crc %s slot %s" % (
                           bytes(e["k"]) if e else None, bytes(e["t"]) if e else None,
                           e and e["c"], e and e["s"]),
@@ -156,4 +395,10 @@ def run(ctx):
     ctx.cov["random_keys"] = {"long": n_long, "long_note": sums3["long"].get("note", ""), "short_validated_by_tlc": n_short}
     ctx.cov["rule"] = ("cases: the CRC step for all 65536 values of s XOR (b<<8) in TLC and all 2^24 three byte keys on the real "
                        "fold (counted as 4 distinct classes); every key of length <= %d over {'{','}','a','b'} (distinct by key; "
-                       "non-trivial = contains '{'); seeded random keys (distinct by key; non-trivial = has a hash tag)" % maxlen)
+                       "non-trivial = contains '{'); seeded random keys (distinct by key; non-trivial = has a hash tag); routing: "
+                       "layout x observed state of the refresh x key (non-trivial = refresh running, or the empty key)" % maxlen)
+    # collect the runs started beside the steps above
+    if f_rtrace is not None:
+        f_rtrace.result()
+    if f_full is not None:
+        f_full.result()
